@@ -51,11 +51,11 @@ PROPS['C01'] = dict(
 PROPS['C02'] = dict(
     modules=['Vivid.Props.C02', 'Vivid.Props.C02Order', 'Vivid.Props.C02History'],
     gens=[],
-    engines=[dict(name='ring', must_hit=['growth', 'growth-boundaries-crossed']), dict(name='mailbox', must_hit=[]),
+    engines=[dict(name='ring', must_hit=['growth', 'growth-boundaries-crossed']), dict(name='ringbig', nomodel=True, must_hit=['rb:boundaries-to-2^23', 'rb:wrapped-head']), dict(name='mailbox', must_hit=[]),
              dict(name='actorsys', only=r'LOST-USER-MESSAGE|ended twice|PANIC|FATAL', must_hit=['ev:dead-letter'])],
     rule='ring: every Push/Pop sequence of length <= 12 (and Push/Pop/PopMany(2) of length <= 8) from initial sizes 1..4 (exhaustive), '
          'then long seeded random runs from sizes 256,1,2,3,5,8,16 with drain phases crossing many growth boundaries; New(0)+Push is the excluded point (panics on both sides). '
-         'Non-trivial = at least one growth. mailbox: per-sender FIFO and system-before-user are monitored on the real mailbox under the baton scheduler. '
+         'Non-trivial = at least one growth. ringbig (monitor only, reference FIFO = two counters): the real ring pushed across every growth boundary 2^k up to 2^23 (thorough: 2^25) pending items, from initial sizes 256, 1, 3, with 0, 1/4 or 3/4 of the pending items popped before each boundary (wrapped head at the copy), then drained: every item once, in order, Length() exact. mailbox: per-sender FIFO and system-before-user are monitored on the real mailbox under the baton scheduler. '
          'actorsys: the order clauses stated on M10 (C02Order: system first, user FIFO, Kill = system / poison Kill = user message, Unstash order) are tied by the actor-system lock-step: every step compares queue lengths, stash ids and what each behaviour saw, in order.',
     exhaustive=True,
     trusted_base=COMMON_TRUST + ['int64 indices modelled as Nat (overflow needs 2^62 queued items)'],
